@@ -53,8 +53,9 @@ vector<size_t> AbstractHmmTransitionMatrix::sample(size_t size) const
 
   size_t nbStates = hmmStateAlphabet().getNumberOfStates();
 
-  // update pij_
+  // update pij_ and eqFreq_
   getPij();
+  getEquilibriumFrequencies();
 
   size_t sta = 0, stb;
   double prob = RandomTools::giveRandomNumberBetweenZeroAndEntry(1.0);
